@@ -77,8 +77,15 @@ def run(spec: dict, judge, *, passes: int, nontrivial, want_out_read: bool = Tru
             keys = [{"effect": "valid-input-passed-through"}]
         return rin_t, ob, keys, None
 
+    cap = int(spec.get("max_minimise", MAX_MINIMISE_PER_SHARD))
     for case in rt.items(spec):
         cid, text, layer = case.id, case.text, case.layer
+        if minimised >= cap and case.gaps and case._render is not None:
+            # every witness has to be reduced to its mechanism before it can be compared with the
+            # known findings; once the shard's reduction budget is used up the rest of its workload
+            # is not executed (reported), rather than judged without attribution
+            bump(obs, "cases_not_executed_after_reduction_budget")
+            continue
         if text is None:
             bump(obs, "not_constructible")
             continue
@@ -115,7 +122,7 @@ def run(spec: dict, judge, *, passes: int, nontrivial, want_out_read: bool = Tru
             final_keys = [k for k in keys if k["effect"] == effect]
             final_ob = ob
             kept = [g for g, _ in case.gaps]
-            if case.gaps and case._render is not None and minimised < MAX_MINIMISE_PER_SHARD:
+            if case.gaps and case._render is not None:
                 minimised += 1
                 budget = [MAX_TESTS_PER_WITNESS]
                 cache: dict = {}
@@ -204,7 +211,8 @@ def standard_plan(tier: str, seed: int, *, modes: list[str], n_random_quick: int
         mparts = 16
         for p in range(mparts):
             specs.append({"kind": "multi", "part": p, "parts": mparts, "stride": 3 if tier == "quick" else 1,
-                          "cap": 1200 if tier == "quick" else 20000})
+                          "cap": 1200 if tier == "quick" else 20000,
+                          "max_minimise": 400 if tier == "quick" else 6000})
     total = n_random_quick if tier == "quick" else n_random_thorough
     per = 1250 if tier == "quick" else 5000
     nshards = max(1, total // per)
@@ -212,6 +220,7 @@ def standard_plan(tier: str, seed: int, *, modes: list[str], n_random_quick: int
         mode = modes[i % len(modes)]
         s = {"kind": "random", "seed": seed * 1000003 + i * 7919 + 17, "n": per, "mode": mode}
         if tier == "thorough":
+            s["max_minimise"] = 2500
             s["depths"] = [2, 3, 4, 5, 6, 8]
             s["budgets"] = [20, 60, 150, 400, 1000]
         if i < lead_ws_shards:
